@@ -2180,7 +2180,25 @@ func (nz *normaliser) expandBody(h *helper, call *ast.CallExpr, lhs []ast.Expr, 
 			unlock := ds.Call
 			body.List = append(body.List[:i:i], body.List[i+1:]...)
 			body.List = rewriteReturns(body.List, func(r *ast.ReturnStmt, last bool) []ast.Stmt {
-				return []ast.Stmt{&ast.ExprStmt{X: cloneNode(unlock)}, r}
+				// what a return reads is read with the lock held: anything but a plain name or literal is put into a
+				// temporary before the unlock
+				var lhs, rhs []ast.Expr
+				for i, e := range r.Results {
+					switch ast.Unparen(e).(type) {
+					case *ast.Ident, *ast.BasicLit:
+						continue
+					}
+					nz.seq++
+					tmp := fmt.Sprintf("rZq%d", nz.seq)
+					lhs = append(lhs, ast.NewIdent(tmp))
+					rhs = append(rhs, e)
+					r.Results[i] = ast.NewIdent(tmp)
+				}
+				out := []ast.Stmt{}
+				if len(lhs) > 0 {
+					out = append(out, &ast.AssignStmt{Lhs: lhs, Tok: token.DEFINE, Rhs: rhs})
+				}
+				return append(out, &ast.ExprStmt{X: cloneNode(unlock)}, r)
 			}, true)
 			if !terminates(body.List) {
 				body.List = append(body.List, &ast.ExprStmt{X: cloneNode(unlock)})
